@@ -26,10 +26,6 @@ Readings `c13_*` say in Prop form what the Bool specifications mean.
 namespace Abmarl
 open World
 
-/-- the three resets, `Except`-typed, by kind -/
-def placementReset (kind : PKind) (o : PlaceOpts) (w : World) (t : Tape) : Except GErr (World × Tape) :=
-  PlaceOut.toExcept (resetX kind o w t)
-
 theorem placementReset_position (o : PlaceOpts) (w : World) (t : Tape) :
     placementReset .position o w t = positionReset o w t := rfl
 theorem placementReset_target (o : PlaceOpts) (w : World) (t : Tape) :
